@@ -272,7 +272,12 @@ class MetadorNode(wrapt.ObjectProxy):
         if self.acl[NodeAcl.local_only]:
             # raise exception (illegal non-local access)
             self._guard_acl(NodeAcl.local_only, "parent")
-        return self._self_container
+        mc = self._self_container
+        if all(mc.acl[k] for k, v in self.acl.items() if v):
+            return mc
+        # this node is more restricted than the container object it came from
+        # -> hand out a view of the container carrying the same restrictions
+        return mc._restricted_view(**{k.name: True for k, v in self.acl.items() if v})
 
 
 class MetadorDataset(MetadorNode):
@@ -591,6 +596,15 @@ class MetadorContainer(MetadorGroup):
         super().__init__(self, to_h5filelike(name_or_obj, mode, driver=driver))
         # initialize metador-specific stuff
         self._self_toc = MetadorContainerTOC(self)
+
+    def _restricted_view(self, **flags) -> MetadorContainer:
+        """Return a view of this container (same data and TOC) with added ACL flags."""
+        own = {k.name: True for k, v in self.acl.items() if v}
+        ret = type(self).__new__(type(self))
+        MetadorGroup.__init__(ret, ret, self.__wrapped__, **{**own, **flags})
+        # share the index, but container-level queries must start at the restricted view
+        ret._self_toc = WithDefaultQueryStartNode(self._self_toc, ret)
+        return ret
 
     # not clear if we want these in the public interface. keep this private for now:
 
